@@ -859,9 +859,18 @@ class Builder(object):
                     if self.currentStore.fetchShare(srcPath) is None:
                         console.terse("     Warning: Init 'with' non-existent share {0}"
                                       " ... creating anyway".format(srcPath))
-                    src = self.currentStore.create(srcPath)
+                    try:
+                        src = self.currentStore.create(srcPath)
+                    except ValueError as ex:  # path collides with the store tree
+                        msg = "ParseError: Building verb '%s'. Invalid share path '%s'. %s" %\
+                            (command, srcPath, ex)
+                        raise excepting.ParseError(msg, tokens, index)
                     #assumes src share inited before this line parsed
                     for field in srcFields:
+                        if field not in src:
+                            msg = "ParseError: Building verb '%s'. Nonexistent field '%s' in share '%s'" %\
+                                (command, field, srcPath)
+                            raise excepting.ParseError(msg, tokens, index)
                         init[field] = src[field]
 
                 else:
